@@ -5,6 +5,7 @@ import (
 	"go/constant"
 	"go/token"
 	"go/types"
+	"sort"
 	"strings"
 
 	"golang.org/x/tools/go/ssa"
@@ -208,7 +209,7 @@ func sameSliceValue(a, b ssa.Value) bool {
 func init() {
 	register(&Rule{
 		Name:  "INIT-BEFORE-READ",
-		Floor: 2,
+		Floor: 1,
 		Doc:   "the receiver of every (*PostingsList).read call is the result of a dominating postingsListInit call with no other read in between (read assumes a cleared list: Count/OrInto/Iterator dispatch on normBits1Hit first)",
 		Run: func(c *Ctx, scope string, r *Report) {
 			read := c.MustFn("(*PostingsList).read")
@@ -248,7 +249,7 @@ func init() {
 
 	register(&Rule{
 		Name:  "LOOKAHEAD-CLAMP",
-		Floor: 4,
+		Floor: 2,
 		Doc:   "every slice expression on an in-memory []byte whose upper bound is (offset + positive constant) — a fixed look-ahead window — has that bound clamped to len/cap of the buffer (the bound is selected by a comparison of the two); otherwise a short record at the end of the buffer panics",
 		Run: func(c *Ctx, scope string, r *Report) {
 			for _, fn := range c.srcFns {
@@ -628,24 +629,44 @@ func init() {
 				seenField := map[string]bool{}
 				for _, b := range fn.Blocks {
 					for i, ins := range b.Instrs {
-						st, ok := ins.(*ssa.Store)
-						if !ok {
+						var names []string
+						switch x := ins.(type) {
+						case *ssa.Store:
+							fa, ok := x.Addr.(*ssa.FieldAddr)
+							if !ok || fa.X != ssa.Value(fn.Params[0]) {
+								continue
+							}
+							if _, f := fieldAddrInfo(fa); f != nil {
+								names = []string{f.Name()}
+							}
+						case ssa.CallInstruction:
+							// a helper method of the same reader that updates the state
+							sc := x.Common().StaticCallee()
+							if sc == nil || !c.inRoot(sc) || sc.Blocks == nil || sc == fn {
+								continue
+							}
+							for ai, a := range x.Common().Args {
+								if a == ssa.Value(fn.Params[0]) && ai < len(sc.Params) {
+									for name := range fieldEvents(sc, targetsOf(sc, ai)) {
+										names = append(names, name)
+									}
+								}
+							}
+							sort.Strings(names)
+						default:
 							continue
 						}
-						fa, ok := st.Addr.(*ssa.FieldAddr)
-						if !ok || fa.X != ssa.Value(fn.Params[0]) {
-							continue
-						}
-						_, f := fieldAddrInfo(fa)
-						if f == nil || !want[f.Name()] {
-							continue
-						}
-						seenField[f.Name()] = true
-						key := sp.fn + "/" + f.Name()
-						if ret := errReturnReachableAfter(b, i); ret != nil {
-							r.bad(key, sp.fn, c.pos(st.Pos()), "reader state ."+f.Name()+" is updated before a fallible step: the error return at "+c.pos(retPos(ret, ret.Block()))+" leaves it claiming a chunk that was not loaded")
-						} else {
-							r.ok(key, sp.fn, c.pos(st.Pos()), "no error return is reachable after this store")
+						for _, name := range names {
+							if !want[name] {
+								continue
+							}
+							seenField[name] = true
+							key := sp.fn + "/" + name
+							if ret := errReturnReachableAfter(b, i); ret != nil {
+								r.bad(key, sp.fn, c.pos(ins.Pos()), "reader state ."+name+" is updated before a fallible step: the error return at "+c.pos(retPos(ret, ret.Block()))+" leaves it claiming a chunk that was not loaded")
+							} else {
+								r.ok(key, sp.fn, c.pos(ins.Pos()), "no error return is reachable after this store")
+							}
 						}
 					}
 				}
